@@ -304,6 +304,18 @@ func runC20(c *Ctx) {
 												okR = true
 											}
 										}
+										// ... or built by the package's constructor, whose literal takes its tag from the first argument
+										if call, ok := stripConv(st.Val).(*ssa.Call); ok {
+											if ctor := staticCallee(call); ctor != nil && len(ctor.Blocks) > 0 && c.W.pkgRelOfFn(ctor) == "tagformat" && len(call.Call.Args) > 0 {
+												if s, ok := constString(call.Call.Args[0]); ok && s == "dials" {
+													for _, rt := range returnsOf(ctor) {
+														if lit := allocOf(retVals(rt)[0]); lit != nil && litTypeName(lit) == "tagformat.TagReformattingMangler" && litField(lit, "tag") == ssa.Value(ctor.Params[0]) {
+															okR = true
+														}
+													}
+												}
+											}
+										}
 									}
 								}
 							}
@@ -416,7 +428,7 @@ func c20Blank(c *Ctx) {
 		// from the ok==true successor: returns a non-nil error, no stores to Blank fields, no calls on the new source
 		var succ *ssa.BasicBlock
 		if okV != nil {
-			for _, r := range *okV.Referrers() {
+			for _, r := range *boolCarrier(okV).Referrers() {
 				if iff, ok := r.(*ssa.If); ok {
 					succ = iff.Block().Succs[0]
 				}
